@@ -31,6 +31,7 @@ Dispatch ==
     [] Ev.e = "Begin"  -> Begin(Ev.args[1], Ev.args[2], Ev.args[3])
     [] Ev.e = "Stream" -> Stream(Ev.args[1], Ev.args[2])
     [] Ev.e = "End"    -> End(Ev.args[1])
+    [] Ev.e = "Move"   -> MoveStream(Ev.args[1], Ev.args[2])
     [] OTHER -> FALSE
 
 TStep ==
